@@ -5,7 +5,7 @@ def I(name, entry, cfg, bound, **kw):
 # VP_CFG bits: 1 = continuation attached before the event (else after), 2/4/8 = type/id/from attribute present, 16/32 = outcome of the stream send
 STANZA = [I('stanza_%s%s' % (n, 'e' if e else 'l'), 'stanza', c | e, 'one arbitrary top-level element (tag <= 3, type <= 6, id <= 2, from <= 3 units), attributes present: ' + n)
           for (n, c) in (('tif', 14), ('ti', 6), ('tf', 10), ('if', 12)) for e in (1, 0) if not (e == 0 and n in ('tf', 'if'))]
-SEND = [I('send_packet_%s' % n, 'send_packet', m << 4, 'arbitrary id <= 2 / addressee <= 3 units incl. empty and duplicate; stream send ' + n) for (n, m) in (('ok', 0), ('fail', 1), ('pending', 2))] + \
+SEND = [I('send_packet_%s' % n, 'send_packet', m << 4, 'arbitrary id <= 2 / addressee <= 3 units incl. empty and duplicate; stream send ' + n) for (n, m) in (('ok', 0), ('fail', 1), ('pending', 2), ('pending_then_fail', 2 | 1 << 2 | 1 << 4), ('pending_then_ok', 2 | 2 << 2 | 1 << 4))] + \
        [I('send_iq_%s' % n, 'send_iq', m << 4, 'QXmppIq with arbitrary id / to (incl. empty), arbitrary own bare JID, arbitrary generated ids; stream send ' + n) for (n, m) in (('ok', 0), ('fail', 1))]
 SPEC = dict(
     property='C07',
@@ -19,8 +19,12 @@ SPEC = dict(
                  I('finish', 'finish', 1, 'finish(id, result) with arbitrary id'),
              ]),
         # own group: the continuation of OutgoingIqManager::sendIq must not be a dispatch candidate in the step group (see README note in c07_common.h)
-        dict(name='send', harness='h.cpp', tus=TUS, models=['qt_core.c', 'qt_list.c', 'qt_dom.c', 'models.c'], shadow_task=True,
+        dict(name='send', harness='h.cpp', tus=TUS, models=['qt_core.c', 'qt_list.c', 'qt_dom.c', 'models.c'], shadow_task=True, cxxdefs={'VP_NO_WATCH': 1},
              loop_bounds={r'^_ZNSt6ranges14__copy_or_move': 110}, instances=SEND),
+        dict(name='reenter', harness='h_reenter.cpp', tus=TUS, models=['qt_core.c', 'qt_list.c', 'qt_dom.c', 'models.c'], shadow_task=True,
+             loop_bounds={r'^_ZNSt6ranges14__copy_or_move': 110},
+             instances=[I('reenter_opened', 'reenter', 256 | 0 << 4, 'handler of a cancelled request re-sends under a fresh id during onSessionOpened(new session)'),
+                        I('reenter_closed', 'reenter', 256 | 1 << 4, 'same during onSessionClosed(cannot resume)')]),
         dict(name='chain', harness='h_chain.cpp', tus=TUS, models=['qt_core.c', 'qt_list.c', 'qt_dom.c', 'models.c'], shadow_task=True,
              loop_bounds={r'^_ZNSt6ranges14__copy_or_move': 110},
              instances=[
